@@ -15,6 +15,11 @@ class C18(ViewsCheck):
     assumptions = ["values are small integers, exact in every element type",
                    "the same view object is not reused across statements in this plan (each statement builds its view)"]
 
+    def configs(self, ctx):
+        if ctx.tier == "quick":
+            return list(QUICK_CFGS) + ["avx2-14-O2+FASTOR_USE_VECTORISED_EXPR_ASSIGN"]
+        return ["%s-%s-O2" % (i, s) for i in ALL_ISAS for s in ("14", "17")] + ["%s-14-O2+FASTOR_USE_VECTORISED_EXPR_ASSIGN" % i for i in ("sse2", "avx2", "avx512")]
+
     def nontrivial(self, ev):
         if ev["e"] != "SliceWrite":
             return False
